@@ -122,17 +122,24 @@ Definition dec_fact (s : sexp) : option fact :=
   | _ => None
   end.
 
-Record obs := { o_facts : list fact; o_stops : list nat }.
+(** [o_stops = None]: the label was one of several written back to back; the Stop() counters were
+    not read between them (they are read after the last one) *)
+Record obs := { o_facts : list fact; o_stops : option (list nat) }.
 Definition dec_obs (s : sexp) : option obs :=
   match tagged "obs" s with
   | Some [e; c] =>
-      match tagged "execs" e, tagged "stops" c with
-      | Some es, Some cs =>
+      match tagged "execs" e, tagged "stops" c, tagged "nostops" c with
+      | Some es, Some cs, _ =>
           match map_opt dec_fact es, map_opt as_nat cs with
-          | Some a, Some b => Some {| o_facts := a; o_stops := b |}
+          | Some a, Some b => Some {| o_facts := a; o_stops := Some b |}
           | _, _ => None
           end
-      | _, _ => None
+      | Some es, None, Some [] =>
+          match map_opt dec_fact es with
+          | Some a => Some {| o_facts := a; o_stops := None |}
+          | None => None
+          end
+      | _, _, _ => None
       end
   | _ => None
   end.
@@ -187,7 +194,8 @@ Fixpoint take_first (id : N) (l : list (nat * N)) : option (nat * list (nat * N)
     subscription with that id) *)
 Definition attribute (a : attr) (f : sframe) : attr * option nat :=
   match f with
-  | SData id (CRes n) => ({| a_err := a_err a; a_cmp := a_cmp a ++ [(n, id)]; a_sub := a_sub a |}, Some n)
+  | SData id (CRes n) =>
+      ({| a_err := filter (fun x => negb (Nat.eqb (fst x) n)) (a_err a); a_cmp := a_cmp a ++ [(n, id)]; a_sub := a_sub a |}, Some n)
   | SData id (CEv n _) => (a, Some n)
   | SData id CErr =>
       match take_first id (a_err a) with
@@ -233,12 +241,12 @@ Definition has_ack (fs : list oframe) : bool :=
 
 (** One label.  Client view of "started": a start / subscribe frame with a decodable payload sent
     after an ack had been received. *)
-Definition obs_events (p : proto) (ls : list label) (k : nat) (l : label) (acked : bool)
+Definition obs_events (soft : bool) (p : proto) (ls : list label) (k : nat) (l : label) (acked : bool)
            (ops : list nat) (before : list nat) (o : obs) (w : list oframe) (a : attr) (reg_clean : bool)
   : attr * list ev :=
   let facts := map ev_of_fact (o_facts o) in
   let ops' := ops ++ sub_ops (o_facts o) in
-  let stops := stop_events ops' before (o_stops o) in
+  let stops := match o_stops o with Some c => stop_events ops' before c | None => [] end in
   match l with
   | LFrame f =>
       let started :=
@@ -256,6 +264,9 @@ Definition obs_events (p : proto) (ls : list label) (k : nat) (l : label) (acked
                       | DInvalid => {| a_err := a_err a ++ [(k, id)]; a_cmp := a_cmp a; a_sub := a_sub a |}
                       | DSubFail => if existsb (fun x => match x with FSubFail _ => true | _ => false end) (o_facts o)
                                     then {| a_err := a_err a ++ [(k, id)]; a_cmp := a_cmp a; a_sub := a_sub a |} else a
+                      | DQuery | DMutation =>
+                          (* while the connection is going down an executed query may be answered with errors only *)
+                          if soft then {| a_err := a_err a ++ [(k, id)]; a_cmp := a_cmp a; a_sub := a_sub a |} else a
                       | _ => a
                       end in
             {| a_err := a_err a0; a_cmp := a_cmp a0;
@@ -277,14 +288,60 @@ Definition obs_events (p : proto) (ls : list label) (k : nat) (l : label) (acked
       (a2, facts ++ stops ++ sends)
   end.
 
-Fixpoint obs_trace (p : proto) (ls : list label) (log : list litem) (reg_clean : bool)
+(** Frames received from label m on, when the labels from m on were not performed one at a time
+    (frames written back to back, a close injected during a handler call): they cannot be assigned
+    to labels by the time they arrived.  Connection-level answers are placed at the label that caused
+    them (the j-th ack and ka at the j-th accepted init, a connection error at a refused init, the j-th
+    pong at the j-th ping); everything else is placed, in the order received, at the ending. *)
+Fixpoint pull_first (P : oframe -> bool) (pool : list oframe) : list oframe * list oframe :=
+  match pool with
+  | [] => ([], [])
+  | f :: r => if P f then ([f], r) else let (a, b) := pull_first P r in (a, f :: b)
+  end.
+Definition is_of (x : sframe) (f : oframe) : bool := match f with OF y => sframe_eqb x y | _ => false end.
+Definition caused (p : proto) (l : label) (o : obs) (pool : list oframe) : list oframe * list oframe :=
+  match l with
+  | LFrame (Msg TInit _ _) =>
+      if existsb (fun x => match x with FInit true => true | _ => false end) (o_facts o) then
+        let (a, r) := pull_first (is_of SAck) pool in
+        match p with
+        | PWs => let (b, r') := pull_first (is_of SKa) r in (a ++ b, r')
+        | PTws => (a, r)
+        end
+      else if existsb (fun x => match x with FInit false => true | _ => false end) (o_facts o) then
+        match p with PWs => pull_first (is_of SConnError) pool | PTws => ([], pool) end
+      else ([], pool)
+  | LFrame (Msg TPing _ _) => match p with PTws => pull_first (is_of SPong) pool | PWs => ([], pool) end
+  | LEnd _ => (pool, [])
+  | _ => ([], pool)
+  end.
+
+Fixpoint frames_from (m : nat) (cur : option nat) (log : list litem) : list oframe :=
+  match log with
+  | [] => []
+  | ISent j :: r => frames_from m (Some j) r
+  | IFrame f :: r =>
+      match cur with
+      | Some j => if Nat.leb m j then f :: frames_from m cur r else frames_from m cur r
+      | None => frames_from m cur r
+      end
+  end.
+
+Definition has_init_ok (fs : list fact) : bool :=
+  existsb (fun x => match x with FInit true => true | _ => false end) fs.
+
+(** [m]: the labels from m on were performed while the connection was going down ([m >= length ls]: none) *)
+Fixpoint obs_trace (m : nat) (pool : list oframe) (p : proto) (ls : list label) (log : list litem) (reg_clean : bool)
          (k : nat) (rest : list label) (os : list obs) (acked : bool) (ops before : list nat) (a : attr)
   : list ev :=
   match rest, os with
   | l :: rest', o :: os' =>
-      let w := window k None log in
-      let (a', es) := obs_events p ls k l acked ops before o w a reg_clean in
-      es ++ obs_trace p ls log reg_clean (S k) rest' os' (acked || has_ack w) (ops ++ sub_ops (o_facts o)) (o_stops o) a'
+      let soft := Nat.leb m k in
+      let pool0 := if Nat.eqb k m then frames_from m None log else pool in
+      let (w, pool') := if soft then caused p l o pool0 else (window k None log, pool0) in
+      let (a', es) := obs_events soft p ls k l acked ops before o w a reg_clean in
+      es ++ obs_trace m pool' p ls log reg_clean (S k) rest' os' (acked || has_ack w || has_init_ok (o_facts o)) (ops ++ sub_ops (o_facts o))
+                      (match o_stops o with Some c => c | None => before end) a'
   | _, _ => []
   end.
 
@@ -314,7 +371,7 @@ Fixpoint compare_steps (p : proto) (k : nat) (s : st) (ls : list label) (os : li
       let (s', out) := step false false false p s l in
       if negb (list_eqb ev_eqb (filter is_fact_ev out) (map ev_of_fact (o_facts o))) then
         Some (v_mismatch "resolver-calls" [of_nat k])
-      else if negb (list_eqb Nat.eqb (map s_stops (srcs s')) (o_stops o)) then
+      else if negb (match o_stops o with Some c => list_eqb Nat.eqb (map s_stops (srcs s')) c | None => true end) then
         Some (v_mismatch "stop-counters" [of_nat k])
       else compare_steps p (S k) s' ls' os'
   | [], [] => None
@@ -331,13 +388,36 @@ Definition has_other (log : list litem) : bool :=
 Definition split_last {A} (l : list A) : option (list A * A) :=
   match rev l with [] => None | x :: r => Some (rev r, x) end.
 
-Definition compare_frames (p : proto) (ls : list label) (log : list litem) : option sexp :=
-  let mt := live_part (trace false false false p ls) in
-  let mf := frames mt in
+(** [n] = number of labels performed while the connection was being served normally; what the model
+    sends for the later ones (performed while the connection was going down) may be cut short *)
+(** in the going-down part a result the model expects may have become an errors-only result (the handler
+    context is cancelled when closing begins: the operation is executed, its resolvers are not run) *)
+Definition soft_eqb (ob md : sframe) : bool :=
+  sframe_eqb ob md || match ob, md with SData i CErr, SData j (CRes _) => N.eqb i j | _, _ => false end.
+Fixpoint soft_prefix (ob md : list sframe) : bool :=
+  match ob, md with
+  | [], _ => true
+  | x :: a, y :: b => soft_eqb x y && soft_prefix a b
+  | _ :: _, [] => false
+  end.
+(** … and the completes of stopped subscriptions, sent by their goroutines, are not ordered with respect to what
+    the read loop sends under the same id (frames written back to back: nobody waited for them): results are
+    compared in order, completes by number *)
+Definition is_data (f : sframe) : bool := match f with SData _ _ => true | _ => false end.
+Definition frames_match (strict soft ob : list sframe) : bool :=
+  let rest := skipn (List.length strict) ob in
+  list_eqb sframe_eqb (firstn (List.length strict) ob) strict &&
+  soft_prefix (filter is_data rest) (filter is_data soft) &&
+  soft_prefix (filter (fun f => negb (is_data f)) rest) (filter (fun f => negb (is_data f)) soft).
+Definition compare_frames (p : proto) (ls : list label) (n : nat) (log : list litem) : option sexp :=
+  let outs := snd (run false false false p ls) in
+  let mf1 := frames (live_part (List.concat (firstn n outs))) in
+  let mf2 := frames (live_part (List.concat (skipn n outs))) in
   let obf := observed_frames log in
-  if negb (list_eqb sframe_eqb (proj_conn mf) (proj_conn obf)) then Some (v_mismatch "connection-level-frames" [])
+  if negb (frames_match (proj_conn mf1) (proj_conn mf2) (proj_conn obf)) then Some (v_mismatch "connection-level-frames" [])
   else
-    match find (fun id => negb (list_eqb sframe_eqb (proj_id id mf) (proj_id id obf))) (ids_of mf ++ ids_of obf) with
+    match find (fun id => negb (frames_match (proj_id id mf1) (proj_id id mf2) (proj_id id obf)))
+               (ids_of mf1 ++ ids_of mf2 ++ ids_of obf) with
     | Some id => Some (v_mismatch "frames-of-operation-id" [of_N id])
     | None => None
     end.
@@ -415,11 +495,16 @@ Definition check (c : sexp) : sexp :=
           match dec_proto ps, map_opt dec_label lss, map_opt dec_obs oss, map_opt dec_litem lgs with
           | Some p, Some ls, Some os, Some log =>
               let flood := is_sym "flood" ms in
+              let n := match field1 "lenient" l with
+                       | Some x => match as_nat x with Some v => Nat.min v (List.length ls) | None => List.length ls end
+                       | None => List.length ls
+                       end in
               let reg_clean := Z.leb reg 0 in
-              let t := obs_trace p ls log reg_clean 0 ls os false [] [] {| a_err := []; a_cmp := []; a_sub := [] |} in
+              let m := if Nat.ltb n (List.length ls) then Nat.pred n else List.length ls in
+              let t := obs_trace m [] p ls log reg_clean 0 ls os false [] [] {| a_err := []; a_cmp := []; a_sub := [] |} in
               if flood then
                 (* a client that never reads: only the clean-up clauses are observable *)
-                let stops := match split_last os with Some (_, o) => o_stops o | None => [] end in
+                let stops := match split_last os with Some (_, {| o_stops := Some c |}) => c | _ => [] end in
                 if negb (forallb (Nat.eqb 1) stops) then v_oracle_fail "stop-not-exactly-once" []
                 else if negb reg_clean then v_oracle_fail "not-deregistered" []
                 else if negb (Z.eqb gor 0) then v_oracle_fail "goroutines-left" [SZ gor]
@@ -428,7 +513,9 @@ Definition check (c : sexp) : sexp :=
               else
               if has_other log then v_oracle_fail "unknown-server-frame" []
               else
-              match spec_verdict p t with
+              let kpos := List.length (obs_trace m [] p ls log reg_clean 0 (firstn m ls) (firstn m os) false [] [] {| a_err := []; a_cmp := []; a_sub := [] |}) in
+              if negb (chk_ack_first p (observed_frames log)) then v_oracle_fail "ack-not-first" [] else
+              match (if Nat.eqb n (List.length ls) then spec_verdict p t else spec_verdict_from kpos p t) with
               | Some key => v_oracle_fail key []
               | None =>
                   if negb (Z.eqb gor 0) then v_oracle_fail "goroutines-left" [SZ gor]
@@ -436,7 +523,7 @@ Definition check (c : sexp) : sexp :=
                   match compare_steps p 0 init_st ls os with
                   | Some v => v
                   | None =>
-                      match compare_frames p ls log with
+                      match compare_frames p ls n log with
                       | Some v => v
                       | None =>
                           match compare_close p ls log with
@@ -444,7 +531,9 @@ Definition check (c : sexp) : sexp :=
                           | None =>
                               if negb (Bool.eqb (negb (registered (final false false false p ls))) reg_clean) then v_mismatch "registry" []
                               else match stall with
-                                   | [] => v_ok (classes p ls t ++ (if Z.ltb reg 0 then ["registry-unobserved"] else []))
+                                   | [] => v_ok (classes p ls t ++ (if Z.ltb reg 0 then ["registry-unobserved"] else []) ++
+                                                 (if is_sym "pipe" ms then ["pipelined-while-closing"] else []) ++
+                                                 (if is_sym "gate" ms then ["closed-during-handler"] else []))
                                    | _ => v_mismatch "harness-wait-timed-out" stall
                                    end
                           end
